@@ -38,6 +38,7 @@ type Violation struct {
 	Where   string            `json:"where"`
 	Count   int               `json:"count"`
 	Path    []uint64          `json:"path"`
+	Trail   []string          `json:"trail"`
 }
 
 type fnInfo struct {
@@ -264,6 +265,13 @@ func (e *Exec) runPath(fn *ssa.Function) {
 // choose picks among alternatives; cons(i) is the constraint of alternative i.
 // Infeasible alternatives are pruned eagerly.
 func (e *Exec) choose(what string, vals []uint64, cons []*Term) uint64 {
+	return e.choose2(what, vals, cons, false, -1)
+}
+
+// choose2: exhaustive means the alternatives cover the whole path condition
+// (so if all others are infeasible the remaining one is feasible without a
+// query); known is the index of an alternative already known feasible (-1: none).
+func (e *Exec) choose2(what string, vals []uint64, cons []*Term, exhaustive bool, known int) uint64 {
 	if e.pos < len(e.trail) {
 		d := e.trail[e.pos]
 		last := e.pos == len(e.trail)-1
@@ -293,9 +301,10 @@ func (e *Exec) choose(what string, vals []uint64, cons []*Term) uint64 {
 			d.alts = append(d.alts, alt{vals[i], c})
 			continue
 		}
-		// last alternative of an exhaustive split with all others infeasible
-		// still needs no check only if the alternatives are exhaustive; we do
-		// not know that in general, so check.
+		if i == known || (exhaustive && i == len(vals)-1 && len(d.alts) == 0) {
+			d.alts = append(d.alts, alt{vals[i], c})
+			continue
+		}
 		e.sol.Push()
 		e.sol.Assert(c)
 		r := e.sol.Check()
@@ -327,7 +336,7 @@ func (e *Exec) branch(c *Term) bool {
 	if c.IsConst() {
 		return c.K != 0
 	}
-	v := e.choose("if", []uint64{1, 0}, []*Term{c, e.ts.Not(c)})
+	v := e.choose2("if", []uint64{1, 0}, []*Term{c, e.ts.Not(c)}, true, -1)
 	return v == 1
 }
 
@@ -440,7 +449,9 @@ func parseOneValue(txt string) uint64 {
 // check is an assertion: c must hold on every value of the current path.
 func (e *Exec) check(c *Term, label string) {
 	if !e.fresh {
-		return // replayed prefix: already checked on an earlier run
+		// replayed prefix: already checked on an earlier run; only replay the assumption
+		e.assume(c)
+		return
 	}
 	e.assertLabels[label]++
 	if c.IsTrue() {
@@ -466,6 +477,11 @@ func (e *Exec) check(c *Term, label string) {
 	switch r {
 	case Unsat:
 		e.Discharged++
+		// PC ∧ ¬c is unsat and PC is sat, hence PC ∧ c is sat: no query needed
+		if !c.IsFalse() {
+			e.choose2("assume", []uint64{1}, []*Term{c}, false, 0)
+		}
+		return
 	case Unknown:
 		e.Unknowns++
 	}
@@ -502,7 +518,12 @@ func (e *Exec) recordViolation(label string) {
 		d := e.trail[i]
 		pv = append(pv, d.alts[d.cur].val)
 	}
-	v = &Violation{Label: label, Harness: e.harness, Values: vals, Order: order, Where: e.where(), Count: 1, Path: pv}
+	var tr []string
+	for i := 0; i < e.pos && i < len(e.trail); i++ {
+		d := e.trail[i]
+		tr = append(tr, fmt.Sprintf("%s=%d/%d", d.what, d.alts[d.cur].val, len(d.alts)))
+	}
+	v = &Violation{Trail: tr, Label: label, Harness: e.harness, Values: vals, Order: order, Where: e.where(), Count: 1, Path: pv}
 	e.Violations[label] = v
 	e.VioOrder = append(e.VioOrder, label)
 }
